@@ -2015,6 +2015,10 @@ def cc_check(prop, tier):
             # crashes of the installation itself belong to C01, not to the calling convention
             if fe is not None and fe["ev"] == "Installed":
                 run.violation("C13 bytes trampoline=%s" % bytes(fe["trampb"][:12]).hex(), {"scenario": byid[sid], "event": fe})
+            elif fe is not None and fe["ev"] == "Write" and fe.get("region") == "entry":
+                run.violation("C13 the entry was written while the trampoline it leads to was still empty (a call in between carries its arguments nowhere)",
+                              {"scenario": byid[sid], "event": {k: fe.get(k) for k in ("region", "name", "changed")},
+                               "events": [e["ev"] + ":" + str(e.get("region", "")) for e in evs[max(0, reached - 5):reached + 2]]})
     if forms["short"] == 0 or forms["long"] == 0:
         raise ToolError("vacuity guard: trampoline forms seen %s" % forms)
     run.extra["trampoline_forms"] = forms
